@@ -47,7 +47,7 @@ OPS = {
 
 
 def generate(rng, tier):
-    n = 160 if tier == "quick" else 2500
+    n = 260 if tier == "quick" else 2500
     cases = []
     for i in range(n):
         g = GRIDS[i % 3]
